@@ -44,9 +44,10 @@ type World struct {
 	Kinds   map[string]*Kind
 	KindsL  []*Kind
 
-	ssaw      *ssaWorld // lazily built
-	sc        *summaryCache
-	factCache map[string]*KindFacts
+	ssaw       *ssaWorld // lazily built
+	sc         *summaryCache
+	factCache  map[string]*KindFacts
+	floorCache map[string][2]any
 }
 
 func goEnv() []string {
